@@ -656,4 +656,27 @@ theorem randiter_assign_counterexample :
 theorem randiter_assignFixed_continues (bits : Nat) (q : Int) (d c : GivIt) (old : Int) :
     GivIt.draw bits q (GivIt.assignFixed d c) old = GivIt.draw bits q c old := rfl
 
+/-! ### non-vacuity: every hypothesis set above is satisfiable (the theorems are applied to concrete arguments) -/
+
+example : canonicalBal 101 ((balRing wrapS64 101).init 7) = true :=
+  bal64_init_canonical 101 (by decide) (by decide) _ (by decide) (by decide)
+example : canonicalBal 101 ((balRing id 101).init 7) = true := balflt_init_canonical 101 (by decide) _ (by decide) (by decide)
+example : (fun e : Int => if true = true then -(2 ^ (8 - 1)) ≤ e ∧ e < 2 ^ (8 - 1) else 0 ≤ e ∧ e < 2 ^ 8) ((zintRing 8 true).init 200) :=
+  zint_init_range 8 true (by decide) 200 (by decide) (by decide)
+example : (rNonzeroD (fltRing 101) 1 0 7).isSome = true := rNonzero_isSome_of_iter (fltRing 101) 0 0 7 (by decide)
+example : (gf2NzLoopD 1 0 7).isSome = true := gf2NzLoop_isSome_of_iter 0 0 7 (by decide)
+example : -1 ≤ extDegree 3 1 7 ∧ extDegree 3 1 7 < 3 :=
+  extDegree_lt 3 (by decide) (by decide) 1 7 (fun _ => by decide) (fun h => absurd h (by decide))
+example : ∀ r, extRandomD 101 3 1 7 64 [1, 1, 1, 1, 1] 7 = some r → polyDegOk 101 (extDegree 3 1 7) r.1 = true ∧ (r.1.length : Int) ≤ 3 :=
+  fun r h => ext_random_canonical 101 3 (by decide) (by decide) (by decide) (by decide) 1 7 (fun _ => by decide)
+    (fun h => absurd h (by decide)) 64 _ 7 r h
+example : ∃ fuel : Nat, (extRandomD 101 3 0 0 fuel [] 7).isSome = true :=
+  ext_random_terminates 101 3 (by decide) (by decide) 0 0 7 (by decide) (by decide) []
+example : ∀ r, polyRandomG (ringCoef (balRing wrapS32 101)) 3 64 [] 7 = some r → r.1.length = (3 : Int).toNat + 1 :=
+  fun r h => ((poly_ring_degree _ _ (bal32_init_canonical 101 (by decide) (by decide)) 3 64 [] 7 r h).2 (by decide)).1
+example : ∀ r, polyRandomG (gfqCoef 32 9) 3 0 [1, 1, 1, 1, 1, 1] 7 = some r → r.1.length = (3 : Int).toNat + 1 :=
+  fun r h => ((poly_gfq_degree 32 9 (by decide) (by decide) (by decide) 3 0 _ 7 r h).2 (by decide)).1
+example : ∃ fuel : Nat, ∀ old : Int, (rNonzeroD (balRing wrapS32 101) fuel old 5).isSome = true :=
+  ring_nonzerorandom_terminates _ (by decide) 5 (by decide) (by decide)
+
 end Givaro.Props.C20Rings
